@@ -377,6 +377,50 @@ func (g *sqlGen) column(name string, tableIdx int) (cs colSpec, crudOK bool) {
 			c.SQLType, c.Domain = "timestamp (0) with time zone", "null:time"
 		}
 		c.Kind = "nullable:" + w
+	case 20: // user-defined NullXXX-style wrapper {Valid bool; X T} over a basic or over a local named time / date
+		var inner *TExpr
+		var innerGo, val, fromSrc, srcT string
+		stem := "Opt"
+		switch g.r.Intn(4) {
+		case 0:
+			inner, innerGo, srcT, fromSrc, val = Basic("int64"), "int64", "int64", "v", "s.X"
+			c.SQLType, c.Domain = "integer", "null:int32"
+			stem = "OptInt"
+		case 1:
+			inner, innerGo, srcT, fromSrc, val = Basic("string"), "string", "string", "v", "s.X"
+			c.SQLType, c.Domain = "text", "null:text"
+			stem = "OptText"
+		case 2:
+			d := g.addDecl(&Decl{Name: g.fresh("Moment"), Kind: DNamed, Under: Std("time.Time"), TimeHelpers: true}, "models.go")
+			inner, innerGo, srcT, fromSrc, val = Ref(d), d.Name, "time.Time", d.Name+"(v)", "time.Time(s.X)"
+			c.SQLType, c.Domain = "timestamp (0) with time zone", "null:time"
+			stem = "OptMoment"
+		default:
+			if g.dateType == nil {
+				g.dateType = g.addDecl(&Decl{Name: g.fresh("BirthDate"), Kind: DNamed, Under: Std("time.Time"), TimeHelpers: true, IsDate: true, SQLHelpers: true}, "models.go")
+			}
+			d := g.dateType
+			inner, innerGo, srcT, fromSrc, val = Ref(d), d.Name, "time.Time", d.Name+"(v)", "time.Time(s.X)"
+			c.SQLType, c.Domain = "date", "null:date"
+			stem = "OptDay"
+		}
+		_ = innerGo
+		fields := []*Field{{Name: "Valid", Type: Basic("bool")}, {Name: "X", Type: inner}}
+		if g.pr(0.5) {
+			fields[0], fields[1] = fields[1], fields[0] // both field orders are accepted
+		}
+		w := g.addDecl(&Decl{Name: g.fresh(stem), Kind: DStruct, Fields: fields}, "other.go")
+		imports := []string{"database/sql/driver", "fmt"}
+		if srcT == "time.Time" {
+			imports = append(imports, "time")
+		}
+		if stem != "OptInt" { // sqlcrud itself emits Scan/Value for local {Valid, int64} wrappers
+			g.root.AddExtra("other.go", fmt.Sprintf("func (s *%[1]s) Scan(src any) error {\n\tif src == nil {\n\t\t*s = %[1]s{}\n\t\treturn nil\n\t}\n\tv, ok := src.(%[2]s)\n\tif !ok {\n\t\treturn fmt.Errorf(\"%[1]s: unexpected %%T\", src)\n\t}\n\t*s = %[1]s{Valid: true, X: %[3]s}\n\treturn nil\n}\n\nfunc (s %[1]s) Value() (driver.Value, error) {\n\tif !s.Valid {\n\t\treturn nil, nil\n\t}\n\treturn %[4]s, nil\n}", w.Name, srcT, fromSrc, val), imports...)
+		}
+		f.Type = Ref(w)
+		c.NotNull = false
+		c.Kind = "nullable:user:" + stem
+		g.p.Feature("sql:user-defined-null-wrapper:" + stem)
 	case 16, 17, 18, 19: // jsonb payloads
 		d := g.payload()
 		if len(g.payloads) > 0 && g.pr(0.35) {
@@ -880,6 +924,13 @@ func (g *sqlGen) addDirectives() {
 					Expected: fmt.Sprintf("ALTER TABLE %s ADD FOREIGN KEY (%s) REFERENCES %s ON DELETE CASCADE;", tr.SQLName, c.Field, c.FK.TargetSQL)})
 				break
 			}
+		}
+		// two REFERENCES in one statement, the later one naming a table that is not declared in
+		// the file: both names become SQL table names (a COMMENT statement has no effect on the schema)
+		if g.pr(0.35) {
+			add(SQLDirective{Kind: "two-references-one-statement",
+				Raw:      fmt.Sprintf("COMMENT ON TABLE %s IS 'archived rows: REFERENCES %s then REFERENCES ArchiveBin'", tr.Struct, tr.Struct),
+				Expected: fmt.Sprintf("COMMENT ON TABLE %s IS 'archived rows: REFERENCES %s then REFERENCES %s';", tr.SQLName, tr.SQLName, SnakePlural("ArchiveBin"))})
 		}
 		// free-standing statement: struct names as whole words are replaced, substrings are not
 		if g.pr(0.35) {
